@@ -178,6 +178,8 @@ def main():
     mod = importlib.import_module("rules.%s" % prop.lower())
     rep = R.Report(prop, a.tier)
     extra = mod.check(ctx, rep) or {}
+    from rules import mechanisms
+    mechanisms.run(rep, ctx, prop)
     # thorough: the same rules over the other cfg arms (yrs[weak,sync] and yrs without features)
     alt_summary = {}
     for tag in tags:
@@ -193,6 +195,7 @@ def main():
         sub = R.Report(prop, a.tier)
         try:
             mod.check(ctx2, sub)
+            mechanisms.run(sub, ctx2, prop)
         except Exception as e:  # a rule crashing on another configuration is a failure of the check, not a pass
             sub.obs.append(R.Ob("config", "<%s>" % tag, "rule-crash", False, "rules crashed on configuration %s: %r" % (tag, e), None, False))
         have = {o.key: o for o in rep.obs}
